@@ -81,6 +81,8 @@ func VerifC10PlasmaFuseCancel() {
 			// applied => it was E (the only entry the pre-state fixes) or an entry we do not know: restrict to E via its key
 			d := o.block.DescendantBlocks
 			verifAssert(len(d) == 1 && d[0].ToAddress == e.send.Address && d[0].TokenStandard == types.QsrTokenStandard, "cancel pays QSR to the caller")
+			// E is the only entry in storage, so an applied cancel released E: it must be gone afterwards (released once)
+			verifAssert(errE == constants.ErrDataNonExistent, "the released entry is deleted")
 			if errE == constants.ErrDataNonExistent {
 				verifAssert(e.send.Address == E.Owner, "a fusion is released only to its owner")
 				verifAssert(e.mom.height >= E.ExpirationHeight, "a fusion is not released before its expiration height")
